@@ -15,6 +15,8 @@ PROPS = {
     "C20": dict(pkg="wallet", level="exploration", stages=[
         direct("vectors", "TestC20Vectors"),
         direct("sweep", "TestC20Sweep"),
+        direct("concurrent", "TestC20Concurrent"),
+        direct("concurrent-race", "TestC20Concurrent", race=True, tiers=["thorough"]),
         rapid("rapid", "TestC20", dict(shards=8, checks=6000), dict(shards=16, checks=300000, timeout=3000)),
         fuzz("fuzz", "FuzzC20Phrase", 240),
     ]),
